@@ -245,7 +245,9 @@ func (fc *FnCtx) finishExit(st *State, panicking bool, ord int, scopePos token.P
 		var sub []*State
 		if d.lit != nil {
 			st.deferDepth = st.callDepth + 1
+			savedRet := st.ret
 			fc.inlineFuncLit(st, d.lit, nil, d.call.Pos())
+			st.ret = savedRet
 			st.deferDepth = 0
 		} else {
 			fc.evalCall(st, d.call)
